@@ -287,7 +287,7 @@ func c14Worker(w *W) {
 			how = "scan triggered by a real rotation"
 			// cross one real boundary; the rotation starts the scan asynchronously
 			now := time.Now()
-			time.Sleep(now.Truncate(time.Second).Add(time.Second+5*time.Millisecond).Sub(now))
+			time.Sleep(now.Truncate(time.Second).Add(time.Second + 5*time.Millisecond).Sub(now))
 			for _, a := range aps {
 				a.Write([]byte("after boundary\n"))
 			}
